@@ -39,6 +39,21 @@ function compile(refjs) {
 
 const isTmplWs = (s) => /^[ \t\n\v\f\r]*$/.test(s)
 
+// the statement's path algebra (same as oracle/pathres.rs): directory of the referrer or the root, drop '.', pop on '..'
+export function resolveRef(base, rel) {
+  let stack = []
+  let body = rel
+  if (rel.startsWith('/')) body = rel.slice(1)
+  else { for (const seg of base.split('/')) pushSeg(stack, seg); stack.pop() }
+  for (const seg of body.split('/')) pushSeg(stack, seg)
+  return stack.join('/')
+}
+function pushSeg(stack, seg) {
+  if (seg === '' || seg === '.') return
+  if (seg === '..') { stack.pop(); return }
+  stack.push(seg)
+}
+
 class Renderer {
   constructor(model, D, pool) {
     this.model = model
@@ -74,7 +89,8 @@ class Renderer {
     for (const w of file.wxs || []) {
       if (w.kind === 'inline') {
         const module = { exports: {} }
-        const require = () => { throw new Error('ref: require in inline script not modelled') }
+        // an inline module is registered as `<file>#<module>`: it requires relative to the file's directory
+        const require = (rel) => this.loadScript(resolveRef(path, rel))
         // eslint-disable-next-line no-new-func
         new Function('require', 'exports', 'module', w.js).call(null, require, module.exports, module)
         m.push(module.exports)
